@@ -292,7 +292,7 @@ def run_case(case, rec, mon=None):
         if own:
             sanit.uninstall([C]); monitor.detach_all()
         return
-    if not scope_ok(comp) or comp.frame_length > 400:
+    if not scope_ok(comp) or (comp.frame_length > 400 and not case.get("realistic")):
         rec.count("configurations_out_of_scope")
         if own:
             sanit.uninstall([C]); monitor.detach_all()
@@ -314,7 +314,7 @@ def run_case(case, rec, mon=None):
     elif kind == "boundary":
         inf = compmon.info(comp)
         width = inf["ir_widths"][0] if inf and len(inf["ir_widths"]) == 1 else None
-        if width and width > 700:
+        if width and width > 700 and not case.get("realistic"):
             rec.count("configurations_skipped_size")
         else:
             Ls = boundary_lengths(rng, comp, width)
@@ -383,6 +383,10 @@ def plan(tier, seed):
             if i % 4 == 0:
                 cases.append({"kind": "fbf", "cfg": cfg, "Ns": [0, 1, 9, 40, 133], "seed": seed, "idx": i})
         specs.append({"cases": cases})
+    for j, cfg in enumerate(gen.realistic_cfgs()):
+        if q and cfg["name"] == "si":
+            continue
+        specs.append({"cases": [{"kind": "boundary", "cfg": cfg, "n_lengths": 4 if q else 10, "n_comps": 2 if q else 4, "seed": seed, "idx": 10 ** 6 + j, "realistic": True}]})
     return specs
 
 
